@@ -19,6 +19,17 @@ def run():
     lines = trace_v1(v, acc, recs, "replay of V1Classify cases")
     acc.nontrivial += sum(1 for r in lines if r.get("ev") == "mm" and r["plants"])
     acc.samples += [{k: r[k] for k in ("unknown", "plants", "ms")} for r in lines if r.get("ev") == "mm"][:3]
+    # the character alphabet {a, b, blank} with contexts over {x, blank}, concatenated: values with blanks at their edges, copies that
+    # begin and end inside words of the unknown, copies that abut
+    genc = tlc("V1Classify", "V1ClassifyChars.cfg", workers=4, timeout=1800)
+    tlc_require_ok(genc, "V1ClassifyChars")
+    acc.add_tlc(genc, "V1ClassifyChars.cfg")
+    recsc, crashesc, _ = run_resumable("stringclassifier", SRC, "TestVerifSCReplay", {"VERIF_IN": genc.outpath, "VERIF_STRIDE": "1" if th else "4", "VERIF_CONCAT": "1"}, "sc.replaychars")
+    for c in crashesc:
+        v.fail("crash:" + c["what"].split(":")[1].strip()[:40] if ":" in c["what"] else "crash", c)
+    linesc = trace_v1(v, acc, recsc, "replay of V1Classify cases, character alphabet")
+    acc.nontrivial += sum(1 for r in linesc if r.get("ev") == "mm" and r["plants"])
+    crashes = crashes + crashesc
     recs2, crashes2, _ = run_resumable("stringclassifier", SRC, "TestVerifSCTrace", {"VERIF_CASES": "1500" if th else "150"}, "sc.trace")
     for c in crashes2:
         v.fail("crash:" + c["what"].split(":")[1].strip()[:40] if ":" in c["what"] else "crash", c)
@@ -26,6 +37,6 @@ def run():
     acc.nontrivial += sum(1 for r in lines2 if r.get("ev") == "mm" and r["plants"])
     acc.extra["crashes"] = len(crashes) + len(crashes2)
     rc = v.finish()
-    vlib.write_evidence(PID, acc.coverage("G: 1-2 known values of 1-2 tokens over {aa, bb, ., (, *} (no value inside another), unknown = ctx . copy . ctx [. ctx . copy] with context tokens {xx, -}; plain / FlattenWhitespace / multi-byte concretisations; T: 1-4 values of 1-80 tokens over five vocabularies (words, prose, metacharacters, Unicode, invalid UTF-8), 1-3 copies; non-trivial = MultipleMatch calls with at least one plant", exhaustive=True),
-        ["copies are token aligned (contexts are separated by blanks)", "overlapping copies of two different values are outside the enumerated domain (uniquify keeps one by design)"], time.time() - t0, len(v.violations))
+    vlib.write_evidence(PID, acc.coverage("G: 1-2 known values of 1-2 tokens over {aa, bb, ., (, *} (no value inside another), unknown = ctx . copy . ctx [. ctx . copy] with context tokens {xx, -}; plain / FlattenWhitespace / multi-byte concretisations; the same generator over the characters {a, b, blank} (values <= 3, contexts over {x, blank}), concatenated; T: 1-4 values of 1-80 tokens over five vocabularies (words, prose, metacharacters, Unicode, invalid UTF-8), 1-3 copies; non-trivial = MultipleMatch calls with at least one plant", exhaustive=True),
+        ["in the token concretisations copies are token aligned; the character alphabet and the seeded cases also glue copies to their context", "overlapping copies of two different values are outside the enumerated domain (uniquify keeps one by design)"], time.time() - t0, len(v.violations))
     return rc
